@@ -436,7 +436,7 @@ Section PathUpdate.
     assert (C00 : Consist st00).
     { intro x. unfold inT, st00. cbn [u_set u_list]. rewrite nget_nempty. split; [intro H; contradiction|intros []]. }
     assert (C0 : Consist st0) by (apply upd_insert_consist; exact C00).
-    assert (K0 : KT g st0).
+    assert (K0 : KT st0).
     { intros x H. apply upd_insert_inT in H. destruct H as [->|H]; [exact Ks|].
       unfold inT, st00 in H. cbn [u_set] in H. rewrite nget_nempty in H. contradiction. }
     assert (S0 : u_sc st0 = bk_sc g) by (unfold st0, upd_insert, st00; cbn [u_set]; rewrite nget_nempty; reflexivity).
@@ -481,3 +481,295 @@ Section PathUpdate.
     - destruct (Tn q NEq) as [Iq _]. apply LA. apply sort_upd_in. apply Tc. exact Iq.
   Qed.
 End PathUpdate.
+
+(** * the path-error equations over operation histories (requeue = true) *)
+
+Definition PI (g : book) : Prop := forall q, In q (bk_keys g) -> eq_patherr g q = true.
+
+Lemma PI_frame : forall g g', bk_root g' = bk_root g -> bk_keys g' = bk_keys g ->
+  bk_parents g' = bk_parents g -> bk_depth g' = bk_depth g -> bk_sc g' = bk_sc g -> PI g -> PI g'.
+Proof.
+  unfold PI. intros g g' R K P D S H q Kq. rewrite K in Kq. rewrite <- (H q Kq).
+  apply eq_patherr_ext; unfold parents, depth, score_of; rewrite ?R, ?P, ?D, ?S; try reflexivity.
+  intros mp _. auto.
+Qed.
+
+Lemma flat_map_ins_parent : forall (B : Type) (f : N * N -> list B) im m p l,
+  f (m, p) = [] -> flat_map f (ins_parent im m p l) = flat_map f l.
+Proof.
+  intros B f im m p l H. induction l as [|[m' p'] t IH]; cbn [ins_parent flat_map].
+  - rewrite H. reflexivity.
+  - destruct (N.eqb m m' && N.eqb p p'); [reflexivity|].
+    destruct (N.ltb m m' || _); cbn [flat_map]; [rewrite H; reflexivity|rewrite IH; reflexivity].
+Qed.
+
+Lemma flat_map_nil : forall (A B : Type) (f : A -> list B) l, (forall x, In x l -> f x = []) -> flat_map f l = [].
+Proof.
+  intros A B f l H. induction l as [|x t IH]; cbn [flat_map]; [reflexivity|].
+  rewrite H by (left; reflexivity). rewrite IH by (intros y Hy; apply H; right; exact Hy). reflexivity.
+Qed.
+
+Lemma depth0_root : forall g, DI g -> (forall q, 0 <= depth g q) ->
+  forall n, In n (bk_keys g) -> (depth g n = 0 <-> n = bk_root g).
+Proof.
+  intros g [Kr DE] NN n Kn. destruct (eq_depth_elim g n (DE n Kn)) as [D0 [D1 D2]]. split; [|exact D0].
+  intro Z0. destruct (N.eq_dec n (bk_root g)) as [E|Hne]; [exact E|]. exfalso.
+  destruct (parents g n) as [|mp0 t] eqn:P.
+  - rewrite (D1 Hne eq_refl) in Z0. rewrite INT_MAX_val in Z0. lia.
+  - destruct (D2 Hne) as [_ [mp [_ Eq]]]; [discriminate|]. specialize (NN (snd mp)). lia.
+Qed.
+
+Section PathHist.
+  Variable succ : N -> N -> option N.
+  Variable rk : N -> Z.
+  Variable wtm : N -> bool.
+  Hypothesis Hrk : forall p m c, succ p m = Some c -> rk p < rk c.
+  Hypothesis Hwtm : forall p m c, succ p m = Some c -> wtm c = negb (wtm p).
+  Variable bd : bdata.
+  Hypothesis Hk : costs_nonneg' bd.
+
+  Lemma PI_updateScores : forall g start,
+    Inv succ g -> DI g -> (forall q, 0 <= depth g q) -> In start (bk_keys g) -> PI g ->
+    bk_err (updateScores true bd g start) = 0%N -> PI (updateScores true bd g start).
+  Proof.
+    unfold PI. intros g start I D NN Ks P E q Kq.
+    destruct (updateScores_fields true bd g start) as [K [F [C [Pa [R [Dp Pe]]]]]].
+    rewrite K in Kq.
+    pose proof (updateScores_pgood succ rk Hrk bd g I (depth0_root g D NN) start Ks) as U.
+    assert (G0 : forall x, In x (bk_keys g) -> pgood g (bk_sc g) x).
+    { intros x Kx. unfold pgood. rewrite <- (P x Kx). apply eq_patherr_ext; try reflexivity. intros mp _. auto. }
+    specialize (U G0 E q Kq). unfold pgood in U. rewrite <- U.
+    apply eq_patherr_ext; unfold parents, depth, score_of; rewrite ?R, ?Pa, ?Dp; try reflexivity.
+    intros mp _. auto.
+  Qed.
+
+  (** adding a parent link whose new parent contributes no path-error candidate *)
+  Lemma link_PI : forall g p m c,
+    Inv succ g -> In p (bk_keys g) -> In c (bk_keys g) -> succ p m = Some c ->
+    Par wtm (bk_depth g) -> NonNeg (bk_depth g) ->
+    (forall x, In x (bk_keys g) -> x <> c -> depth g x < INT_MAX) ->
+    (s_nm (score_of g c) = INVALID_SCORE \/
+     (depth g c < INT_MAX /\ (s_pew (score_of g p) = INVALID_SCORE \/ s_peb (score_of g p) = INVALID_SCORE \/
+                              s_nm (score_of g p) = INVALID_SCORE))) ->
+    PI g -> PI (link g p m c).
+  Proof.
+    unfold PI. intros g p m c I Kp Kc Hs Pa NN FK Hc P.
+    destruct (link_step succ wtm Hwtm g p m c I Kp Kc Hs Pa NN) as [I1 [Pa1 [NN1 [K1 [F1 [S1 [Pe1 [R1 [C1 [D1 [B1 E1]]]]]]]]]]].
+    set (g1 := link g p m c) in *.
+    assert (Sc : forall x, score_of g1 x = score_of g x) by (intro x; unfold score_of; rewrite S1; reflexivity).
+    assert (Par1 : forall x, depth g x < INT_MAX -> Z.odd (depth g1 x) = Z.odd (depth g x)).
+    { intros x Hx. rewrite <- !Z.negb_even. f_equal. destruct Pa as [_ Pr]. destruct Pa1 as [_ Pr1].
+      unfold depth in *. rewrite (Pr x Hx). apply Pr1. specialize (D1 x). unfold depth in D1. lia. }
+    intros q Kq. rewrite K1 in Kq. rewrite <- (P q Kq).
+    destruct (N.eq_dec q c) as [->|Hqc].
+    - (* the node that got the new parent *)
+      unfold eq_patherr. rewrite R1, !Sc. destruct (N.eqb c (bk_root g)); [reflexivity|].
+      assert (Cand : pe_candidates g1 c = pe_candidates g c).
+      { unfold pe_candidates. rewrite !Sc. rewrite parents_link, N.eqb_refl.
+        destruct Hc as [Hn|[Hfin Hp]].
+        - rewrite !flat_map_nil; [reflexivity| |]; intros mp _; rewrite Hn, Z.eqb_refl; rewrite ?orb_true_r; reflexivity.
+        - rewrite (Par1 c Hfin). rewrite flat_map_ins_parent.
+          + apply flat_map_ext_in. intros mp _. rewrite !Sc. reflexivity.
+          + cbn [snd]. rewrite Sc. destruct Hp as [H|[H|H]]; rewrite H, Z.eqb_refl; rewrite ?orb_true_r; reflexivity. }
+      rewrite Cand. reflexivity.
+    - apply eq_patherr_ext; rewrite ?R1, ?Sc; try reflexivity.
+      + rewrite parents_link. destruct (N.eqb_spec q c); [contradiction|reflexivity].
+      + apply Par1. apply FK; assumption.
+      + intros mp _. rewrite !Sc. auto.
+  Qed.
+
+  Lemma fold_plinks_PI : forall pl g h,
+    Inv succ g -> In h (bk_keys g) ->
+    (forall m p, In (m, p) pl -> In p (bk_keys g) /\ succ p m = Some h /\ p <> h) ->
+    Par wtm (bk_depth g) -> NonNeg (bk_depth g) -> PI g ->
+    (forall q, In q (bk_keys g) -> q <> h -> depth g q < INT_MAX) ->
+    s_nm (score_of g h) = INVALID_SCORE ->
+    PI (fold_left (fun g mp => link g (snd mp) (fst mp) h) pl g).
+  Proof.
+    induction pl as [|[m p] t IH]; intros g h I Kh Hpl Pa NN P FK Hn; cbn [fold_left]; [exact P|].
+    cbn [fst snd]. destruct (Hpl m p (or_introl eq_refl)) as [Kp [Sp0 Hph]].
+    destruct (link_step succ wtm Hwtm g p m h I Kp Kh Sp0 Pa NN) as [I1 [Pa1 [NN1 [K1 [F1 [S1 [Pe1 [R1 [C1 [D1 [B1 E1]]]]]]]]]]].
+    apply IH; try assumption.
+    - rewrite K1. exact Kh.
+    - intros m' p' H. rewrite K1. apply Hpl. right; exact H.
+    - apply link_PI; try assumption. left. exact Hn.
+    - intros q Kq Hq. rewrite K1 in Kq. specialize (D1 q). specialize (FK q Kq Hq). lia.
+    - unfold score_of. rewrite S1. exact Hn.
+  Qed.
+
+  Lemma fold_clinks_PI : forall cl g h,
+    Inv succ g -> In h (bk_keys g) -> succ_list_ok succ h cl ->
+    Par wtm (bk_depth g) -> NonNeg (bk_depth g) -> PI g ->
+    (forall q, In q (bk_keys g) -> depth g q < INT_MAX) ->
+    s_pew (score_of g h) = INVALID_SCORE ->
+    PI (setChildRefs g h cl).
+  Proof.
+    unfold setChildRefs. induction cl as [|[m c] t IH]; intros g h I Kh Hs Pa NN P FK Hp; cbn [fold_left]; [exact P|].
+    cbn [fst snd]. destruct (has_node g c) eqn:HN.
+    - assert (Kc : In c (bk_keys g)) by (apply (inv_keys succ g I); exact HN).
+      assert (Sc : succ h m = Some c) by (apply Hs; left; reflexivity).
+      destruct (link_step succ wtm Hwtm g h m c I Kh Kc Sc Pa NN) as [I1 [Pa1 [NN1 [K1 [F1 [S1 [Pe1 [R1 [C1 [D1 [B1 E1]]]]]]]]]]].
+      apply IH; try assumption.
+      + rewrite K1. exact Kh.
+      + intros m' c' H. apply Hs. right; exact H.
+      + apply link_PI; try assumption.
+        * intros x Kx _. apply FK. exact Kx.
+        * right. split; [apply FK; exact Kc|left; exact Hp].
+      + intros q Kq. rewrite K1 in Kq. specialize (D1 q). specialize (FK q Kq). lia.
+      + unfold score_of. rewrite S1. exact Hp.
+    - apply IH; try assumption. intros m' c' H. apply Hs. right; exact H.
+  Qed.
+
+  Lemma PI_opAdd : forall g h addr pl cl,
+    GI succ wtm bd g -> DI g -> PI g -> op_wf succ g (OpAdd h addr pl cl) -> pl <> [] ->
+    Z.of_nat (length (bk_keys g)) + 1 < INT_MAX ->
+    bk_err (opAdd true bd g h addr pl cl) = 0%N -> PI (opAdd true bd g h addr pl cl).
+  Proof.
+    intros g h addr pl cl G D P W Hne Hsz E.
+    assert (Dfull : DI (opAdd true bd g h addr pl cl)) by (apply (DI_opAdd succ wtm Hwtm true bd); assumption).
+    assert (Gfull : GI succ wtm bd (opAdd true bd g h addr pl cl)) by (apply (GI_opAdd succ rk wtm Hrk Hwtm true bd Hk); assumption).
+    destruct W as [Hfresh [Hpl Hcl]]. unfold opAdd in *.
+    pose proof (gi_inv succ wtm bd g G) as I.
+    destruct (no_links_outside succ g h I Hfresh) as [C0 P0].
+    set (g0 := new_node g h addr (mkInfo addr 0 INVALID_SCORE 0 ST_EMPTY) INT_MAX default_scores) in *.
+    assert (I0 : Inv succ g0) by (apply Inv_new_node; assumption).
+    assert (K0 : bk_keys g0 = h :: bk_keys g).
+    { unfold g0, new_node. cbn [bk_keys]. unfold add_key.
+      destruct (mem h (bk_keys g)) eqn:M; [apply mem_in in M; contradiction|reflexivity]. }
+    assert (Kh0 : In h (bk_keys g0)) by (rewrite K0; left; reflexivity).
+    destruct D as [Kr DE].
+    assert (Hhr : h <> bk_root g) by (intro; subst; contradiction).
+    assert (D0 : forall q, q <> h -> depth g0 q = depth g q).
+    { intros q Hq. unfold depth, g0, new_node. cbn [bk_depth]. apply depth_of_set_other. exact Hq. }
+    assert (S0 : forall q, q <> h -> score_of g0 q = score_of g q).
+    { intros q Hq. unfold score_of, g0, new_node. cbn [bk_sc]. apply scof_set_other. exact Hq. }
+    assert (Sh0 : score_of g0 h = default_scores) by (unfold score_of, g0, new_node; cbn [bk_sc]; apply scof_set_same).
+    assert (P0' : forall q, parents g0 q = parents g q).
+    { intro q. unfold parents, g0, new_node. cbn [bk_parents]. unfold links_of. rewrite nget_nset.
+      destruct (N.eqb_spec q h) as [->|_]; [symmetry; exact P0|reflexivity]. }
+    assert (Pa0 : Par wtm (bk_depth g0)).
+    { destruct (gi_par succ wtm bd g G) as [B Pr]. unfold g0, new_node. cbn [bk_depth]. split; intro q.
+      - destruct (N.eq_dec q h) as [->|Hq]; [rewrite depth_of_set_same; lia|rewrite depth_of_set_other by exact Hq; apply B].
+      - destruct (N.eq_dec q h) as [->|Hq]; [rewrite depth_of_set_same; lia|rewrite depth_of_set_other by exact Hq; apply Pr]. }
+    assert (NN0 : NonNeg (bk_depth g0)).
+    { intro q. unfold g0, new_node. cbn [bk_depth].
+      destruct (N.eq_dec q h) as [->|Hq]; [rewrite depth_of_set_same; rewrite INT_MAX_val; lia|rewrite depth_of_set_other by exact Hq; apply (gi_nonneg succ wtm bd g G)]. }
+    assert (PI0 : PI g0).
+    { unfold PI in *. intros q Kq. rewrite K0 in Kq. destruct Kq as [<-|Kq].
+      - unfold eq_patherr. change (bk_root g0) with (bk_root g). destruct (N.eqb_spec h (bk_root g)) as [|_]; [contradiction|].
+        unfold pe_candidates. rewrite P0', P0. cbn [flat_map]. rewrite Sh0. reflexivity.
+      - assert (Hq : q <> h) by (intro; subst; contradiction).
+        rewrite <- (P q Kq). apply eq_patherr_ext; try reflexivity.
+        + apply P0'.
+        + rewrite D0 by exact Hq. reflexivity.
+        + rewrite S0 by exact Hq. reflexivity.
+        + rewrite S0 by exact Hq. reflexivity.
+        + rewrite S0 by exact Hq. reflexivity.
+        + intros [m p] Hin. cbn [snd]. rewrite P0' in Hin.
+          pose proof (inv_parent succ g I q m p Hin) as C. destruct (inv_child succ g I p m q C) as [Kp _].
+          rewrite S0 by (intro; subst; contradiction). auto. }
+    assert (FK0 : forall q, In q (bk_keys g0) -> q <> h -> depth g0 q < INT_MAX).
+    { intros q Kq Hq. rewrite K0 in Kq. destruct Kq as [E0|Kq]; [congruence|].
+      rewrite D0 by exact Hq. pose proof (gi_fin succ wtm bd g G q Kq). lia. }
+    assert (Hpl0 : forall m p, In (m, p) pl -> In p (bk_keys g0) /\ succ p m = Some h /\ p <> h).
+    { intros m p H. destruct (Hpl m p H) as [A B]. split; [rewrite K0; right; exact A|]. split; [exact B|]. intro; subst; contradiction. }
+    set (g2 := fold_left (fun g mp => link g (snd mp) (fst mp) h) pl g0) in *.
+    set (g3 := setChildRefs g2 h cl) in *.
+    destruct (fold_plinks succ wtm Hwtm pl g0 h I0 Kh0) as [I2 [Pa2 [NN2 [K2 [F2 [S2 [Pe2 [C2 [D2 [B2 [_ _]]]]]]]]]]]; try assumption.
+    { intros m p H. destruct (Hpl0 m p H) as [A [B _]]. split; assumption. }
+    fold g2 in I2, Pa2, NN2, K2, F2, S2, Pe2, C2, D2, B2.
+    assert (PI2 : PI g2).
+    { apply fold_plinks_PI; try assumption. rewrite Sh0. reflexivity. }
+    assert (FK2 : forall q, In q (bk_keys g2) -> depth g2 q < INT_MAX).
+    { intros q Kq. rewrite K2, K0 in Kq. destruct Kq as [<-|Kq].
+      - destruct pl as [|[m p] t]; [contradiction|].
+        destruct (B2 m p (or_introl eq_refl)) as [Bh _]. destruct (Hpl m p (or_introl eq_refl)) as [Kp _].
+        assert (Hp : p <> h) by (intro; subst; contradiction).
+        pose proof (gi_fin succ wtm bd g G p Kp). rewrite (D0 p Hp) in Bh. lia.
+      - assert (Hq : q <> h) by (intro; subst; contradiction).
+        specialize (D2 q). assert (Kq0 : In q (bk_keys g0)) by (rewrite K0; right; exact Kq).
+        pose proof (FK0 q Kq0 Hq). lia. }
+    assert (PI3 : PI g3).
+    { apply fold_clinks_PI; try assumption; [rewrite K2; exact Kh0|].
+      unfold score_of. rewrite S2. fold (score_of g0 h). rewrite Sh0. reflexivity. }
+    destruct (fold_clinks succ rk wtm Hrk Hwtm cl g2 h I2) as [I3 [Pa3 [NN3 [K3 _]]]]; try assumption.
+    { rewrite K2. exact Kh0. }
+    fold g3 in I3, Pa3, NN3, K3.
+    (* DI of g3: recovered from the depth invariant of the final state *)
+    assert (D3 : DI g3).
+    { destruct (updateScores_fields true bd g3 h) as [K4 [F4 [C4 [P4 [R4 [D4 _]]]]]].
+      apply (DI_frame (set_state (updateScores true bd g3 h) h ST_INITIALIZED)); try (symmetry; assumption); [|exact Dfull].
+      cbn [set_state set_info bk_keys]. symmetry. exact K4. }
+    assert (E3 : bk_err (updateScores true bd g3 h) = 0%N) by exact E.
+    assert (PI4 : PI (updateScores true bd g3 h)).
+    { apply PI_updateScores; try assumption.
+      - intro q. apply NN3.
+      - rewrite K3, K2. exact Kh0. }
+    destruct (updateScores_fields true bd g3 h) as [K4 [F4 [C4 [P4 [R4 [D4 _]]]]]].
+    apply (PI_frame (updateScores true bd g3 h)); try reflexivity. exact PI4.
+  Qed.
+
+  (** all invariants together *)
+  Definition KI (g : book) : Prop := GI succ wtm bd g /\ DI g /\ PI g.
+
+  Lemma KI_apply_op : forall g o, KI g -> op_ok succ g o -> bk_err (apply_op true bd g o) = 0%N -> KI (apply_op true bd g o).
+  Proof.
+    intros g o [G [D P]] W E.
+    destruct (JI_apply_op succ rk wtm Hrk Hwtm true bd Hk g o (conj G D) W E) as [G' D'].
+    split; [exact G'|]. split; [exact D'|].
+    destruct W as [W X]. destruct o as [h addr pl cl|h mv s t|h|h|recs addrs sl]; cbn [apply_op] in *.
+    - destruct X as [X1 X2]. apply PI_opAdd; assumption.
+    - unfold opSet in *. apply PI_updateScores; try assumption.
+      + apply Inv_set_info; [apply (gi_inv succ wtm bd g G)|exact W].
+      + apply (DI_frame g); try reflexivity. exact D.
+      + intro q. apply (gi_nonneg succ wtm bd g G).
+      + apply (PI_frame g); try reflexivity. exact P.
+    - unfold opPend in *. apply PI_updateScores; try assumption.
+      + apply Inv_set_pending. apply (gi_inv succ wtm bd g G).
+      + apply (DI_frame g); try reflexivity. exact D.
+      + intro q. apply (gi_nonneg succ wtm bd g G).
+      + apply (PI_frame g); try reflexivity. exact P.
+    - unfold opUnpend in *. apply PI_updateScores; try assumption.
+      + apply Inv_set_pending. apply (gi_inv succ wtm bd g G).
+      + apply (DI_frame g); try reflexivity. exact D.
+      + intro q. apply (gi_nonneg succ wtm bd g G).
+      + apply (PI_frame g); try reflexivity. exact P.
+    - destruct X.
+  Qed.
+
+  Lemma KI_run : forall ops g, KI g -> ops_ok succ true bd g ops -> bk_err (run true bd g ops) = 0%N -> KI (run true bd g ops).
+  Proof.
+    induction ops as [|o t IH]; intros g J H E; cbn [run fold_left] in *; [exact J|].
+    destruct H as [H1 H2].
+    assert (E1 : bk_err (apply_op true bd g o) = 0%N).
+    { pose proof (run_err_mono succ true bd t _ H2) as M. unfold run in M. rewrite E in M. lia. }
+    apply IH; [apply KI_apply_op; assumption|exact H2|exact E].
+  Qed.
+
+  Lemma PI_newBook : forall r a, PI (newBook r a).
+  Proof.
+    intros r a. rewrite newBook_eq.
+    set (g := new_node (empty_book r) r a (mkInfo a 0 INVALID_SCORE 0 ST_INITIALIZED) 0 root_scores).
+    unfold PI. intros q Kq. assert (K : bk_keys g = [r]) by reflexivity. rewrite K in Kq. destruct Kq as [<-|[]].
+    unfold eq_patherr. change (bk_root g) with r. rewrite N.eqb_refl.
+    unfold score_of, g, new_node. cbn [bk_sc]. rewrite scof_set_same. reflexivity.
+  Qed.
+
+  (** THE FIXED CODE: after every history of add / set / pending operations every node
+      satisfies ALL its defining equations *)
+  Theorem fixpoint_fixed : forall root addr ops,
+    wtm root = true ->
+    ops_ok succ true bd (newBook root addr) ops ->
+    let g := run true bd (newBook root addr) ops in
+    bk_err g = 0%N -> all_equations bd g.
+  Proof.
+    intros root addr ops Hr W g E q Kq.
+    assert (J : KI g).
+    { apply KI_run; [|exact W|exact E].
+      split; [apply (GI_newBook succ wtm bd); exact Hr|]. split; [apply DI_newBook|apply PI_newBook]. }
+    destruct J as [G [[_ D] P]].
+    destruct (gi_good succ wtm bd g G q Kq) as [A [B C]].
+    unfold node_ok. split; [exact A|]. split; [exact B|]. split; [exact C|]. split; [apply P; exact Kq|].
+    split; [apply D; exact Kq|]. apply (Inv_eq_links succ g (gi_inv succ wtm bd g G)). exact Kq.
+  Qed.
+End PathHist.
